@@ -454,3 +454,40 @@ def funcs_of(m, *module_shorts, only=None):
         if short in module_shorts and (only is None or fi.name in only or fi.qualname in only):
             out.append(fi)
     return out
+
+
+def nan_gate(ctx, rule, fi, callee, key):
+    """The bin calculation is told to refuse NaN exactly when the caller did not ask for them to be dropped (and there are
+    data at all): the `check_nan` argument, as a boolean function of `dropna` and `<data> is not None`, is (not dropna) and present."""
+    calls = [c for c in calls_in(fi.node) if call_is(c, callee)]
+    if not calls or kwarg(calls[0], "check_nan") is None:
+        ctx.bad(rule, key, f"{callee} is not called with check_nan", fi.where)
+        return
+    e = kwarg(calls[0], "check_nan")
+    if isinstance(e, ast.Name):
+        defs = [n.value for n in ast.walk(fi.node) if isinstance(n, ast.Assign) and U(n.targets[0]) == e.id]
+        e = defs[-1] if defs else e
+
+    def ev(x, dropna, present):
+        if isinstance(x, ast.BoolOp):
+            vals = [ev(v, dropna, present) for v in x.values]
+            if any(v is None for v in vals):
+                return None
+            return all(vals) if isinstance(x.op, ast.And) else any(vals)
+        if isinstance(x, ast.UnaryOp) and isinstance(x.op, ast.Not):
+            v = ev(x.operand, dropna, present)
+            return None if v is None else not v
+        if isinstance(x, ast.Name) and x.id == "dropna":
+            return dropna
+        if isinstance(x, ast.Compare) and len(x.ops) == 1 and isinstance(x.comparators[0], ast.Constant) and x.comparators[0].value is None \
+                and isinstance(x.left, ast.Name):
+            if isinstance(x.ops[0], ast.IsNot):
+                return present
+            if isinstance(x.ops[0], ast.Is):
+                return not present
+        return None
+    table = {(d, p): ev(e, d, p) for d in (True, False) for p in (True, False)}
+    want = {(d, p): (not d) and p for d in (True, False) for p in (True, False)}
+    ctx.check(table == want, rule, key, f"check_nan = `{U(e)}` == (not dropna) and data present, for all four cases",
+              f"check_nan = `{U(e)}` has the truth table {table} over (dropna, data present); NaN must be refused exactly when dropna is off "
+              "and there are data", fi.where)
